@@ -32,11 +32,13 @@ let () = each_line (fun l ->
     expect t "I"; let ia = read_w t in let ib = read_w t in
     if not (nfa_same a ia && nfa_same b ib) then fails := "operand_changed" :: !fails;
     (* drift: the functional model of the three selections (sanitize, then decide) *)
-    let drift = List.filter (fun v -> wincl_model v a b <> truth) [Antichains; CongrDepth; CongrBreadth] in
+    (* the models are executed on small operands only (the congruence model is exponential); the gate above is evaluated on every case *)
+    let small = nstate_count a <= 10 && nstate_count b <= 10 in
+    let drift = if small then List.filter (fun v -> wincl_model v a b <> truth) [Antichains; CongrDepth; CongrBreadth] else [] in
     (* drift: the algorithmic model of the antichain selection (worklist, antichain, memo tables) *)
-    let acm = ac_incl_model a b in
+    let acm = if small then ac_incl_model a b else truth in
     (* drift: the algorithmic model of the congruence selections (bisimulation up to congruence, depth-first and breadth-first) *)
-    let hk = List.for_all (fun bfs -> match hkc_model bfs (nat_of_int 4000) a b with Some v -> v = truth | None -> true) [false; true] in
+    let hk = (not small) || List.for_all (fun bfs -> match hkc_model bfs (nat_of_int 4000) a b with Some v -> v = truth | None -> true) [false; true] in
     let fails = List.rev !fails in
     (if fails = [] then "OK" else "FAIL " ^ String.concat "," fails)
     ^ (if drift = [] && acm = truth && hk then "" else " DRIFT model")
